@@ -65,8 +65,8 @@ pub fn distance_enum(a: &Geometry<f64>, b: &Geometry<f64>) -> f64 {
 
 // ---- the f32 instantiation of the same impls (lattice coordinates are exact in f32) ----
 pub fn to_f32(g: &Geometry<f64>) -> Geometry<f32> {
-    use geo::MapCoords;
-    g.map_coords(|c| geo::Coord { x: c.x as f32, y: c.y as f32 })
+    // rebuilt type by type (geo's map_coords would re-normalise a Triangle's corner order)
+    crate::build::map_geom_g(g, &|c| geo::Coord { x: c.x as f32, y: c.y as f32 })
 }
 pub fn relate_f32(a: &Geometry<f32>, b: &Geometry<f32>) -> String {
     use geo::Relate;
